@@ -45,11 +45,14 @@ Section Stmt.
   Variable sc : bool.
 
   (* ---------- what the parser / the configuration guarantee about a device's scripts ----------
-     a format has at most one %s and otherwise only %% (C17 checks the shipped files, C18 the parser), and the
-     formatted string fits the 64 KiB output buffer for every plug list this device can pass to it *)
+     a format has at most one %s and otherwise only %% (C17 checks the shipped files, C18 the parser): hsprintf is defined on it
+     for whatever argument the plug list gives.  NO bound on the length of the formatted string: since the repair of F38 a string
+     that does not fit dev->to overwrites the oldest unsent bytes instead of tripping an assert (and a bound quantified over all
+     plug lists `incl`uded in the device's plugs - arbitrarily long with repetitions - would be unsatisfiable for a format with %s
+     under any host-range compression whose output grows with its input) *)
   Definition fmt_ok (plugs : list plug) (fmt : text) : Prop :=
     forall ps, opt_incl ps plugs ->
-      exists str, hsprintf1 fmt (send_arg compress (new_ctx [] ps)) = Some str /\ (length str <= Z.to_nat MAX_DEV_BUF)%nat.
+      exists str, hsprintf1 fmt (send_arg compress (new_ctx [] ps)) = Some str.
 
   Fixpoint wf_stmt (plugs : list plug) (s : stmt) : Prop :=
     match s with
@@ -94,7 +97,8 @@ Section Stmt.
     sp_id : same_id a a';
     sp_evs : forallb ev_script evs = true;
     sp_tmo : forall v, t = Some v -> 0 < v;
-    sp_sent : sd_to sd' = sd_to sd ++ sent_bytes evs;
+    (* the bytes queued are exactly the strings of the send statements, as long as they fit the buffer *)
+    sp_sent : (length (sd_to sd ++ sent_bytes evs) <= Z.to_nat MAX_DEV_BUF)%nat -> sd_to sd' = sd_to sd ++ sent_bytes evs;
     sp_store : length store' = length store /\ forall j, a_args a <> Some j -> nth_error store' j = nth_error store j
   }.
 
@@ -109,7 +113,7 @@ Section Stmt.
     - eapply same_id_trans; eassumption.
     - rewrite forallb_app, v1, v2. reflexivity.
     - apply min_tmo_pos; assumption.
-    - rewrite s2, s1, sent_bytes_app, app_assoc. reflexivity.
+    - rewrite sent_bytes_app, app_assoc. intros Hfit. pose proof Hfit as Hfit'. rewrite app_length in Hfit'. rewrite s2, s1; [reflexivity|lia|rewrite s1; [exact Hfit|lia]].
     - split; [congruence|]. intros j Hj. rewrite q2, q1; auto.
       destruct i1 as (_ & _ & _ & _ & _ & _ & Ea). rewrite Ea. exact Hj.
   Qed.
@@ -200,24 +204,35 @@ Section Stmt.
       unfold process_send, post1. destruct (c_processing e) eqn:Ep.
       - destruct (sd_to sd) as [|b0 r0] eqn:Et.
         + constructor; [apply Hwa; [apply same_id_refl|apply wf_ctx_proc, Hwfe] | reflexivity | reflexivity | intros _; exact Et | discriminate
-                       | repeat split | reflexivity | discriminate | rewrite Et; reflexivity | apply store_same].
+                       | repeat split | reflexivity | discriminate | intros _; rewrite Et; reflexivity | apply store_same].
         + constructor; [apply Hwa; [apply same_id_refl|apply wf_ctx_proc, Hwfe] | reflexivity | reflexivity | discriminate
                        | intros _; right; exists (set_processing true e), rest, fmt; cbn; repeat split; auto
-                       | repeat split | reflexivity | discriminate | rewrite Et; cbn; now rewrite app_nil_r | apply store_same].
+                       | repeat split | reflexivity | discriminate | intros _; rewrite Et; cbn; now rewrite app_nil_r | apply store_same].
       - assert (Et : sd_to sd = []).
         { destruct Hto as [H|(e0 & r0 & f0 & E1 & _ & E3)]; [exact H|]. rewrite Ex in E1. injection E1 as E1a E1b. subst e0 r0. congruence. }
-        destruct (Hws (c_plugs e) Hpl) as (str & Hstr & Hlen). rewrite send_arg_new, Hstr, Et.
+        destruct (Hws (c_plugs e) Hpl) as (str & Hstr). rewrite send_arg_new, Hstr, Et.
         cbn [length]. rewrite Nat.sub_0_r.
-        destruct (Nat.ltb (Z.to_nat MAX_DEV_BUF) (length str)) eqn:El; [apply Nat.ltb_lt in El; lia|].
+        destruct (Nat.ltb (Z.to_nat MAX_DEV_BUF) (length str)) eqn:El.
+        { (* the string does not fit even the empty buffer: since the repair of F38 its oldest bytes are overwritten (source fact) *)
+          assert (Hfix : SEND_OVERRUN_ASSERT = false) by reflexivity. rewrite Hfix. apply Nat.ltb_lt in El.
+          cbn [sd_to set_to app].
+          destruct (lastn (Z.to_nat MAX_DEV_BUF) str) as [|c0 str0] eqn:Ela.
+          - constructor; [apply Hwa; [apply same_id_refl|apply wf_ctx_proc, Hwfe] | reflexivity | reflexivity | intros _; reflexivity | discriminate
+                         | repeat split | reflexivity | discriminate
+                         | cbn [sent_bytes flat_map]; rewrite Et, app_nil_r; cbn [app]; intros Hfit; lia | apply store_same].
+          - constructor; [apply Hwa; [apply same_id_refl|apply wf_ctx_proc, Hwfe] | reflexivity | reflexivity | discriminate
+                         | intros _; right; exists (set_processing true e), rest, fmt; cbn; repeat split; auto
+                         | repeat split | reflexivity | discriminate
+                         | cbn [sent_bytes flat_map]; rewrite Et, app_nil_r; cbn [app]; intros Hfit; lia | apply store_same]. }
         cbn [sd_to set_to app]. pose proof (tele_script a (msg_send sd (memstr str))) as [Ht1 Ht2].
         destruct str as [|c0 str0].
         + constructor; [apply Hwa; [apply same_id_refl|apply wf_ctx_proc, Hwfe] | reflexivity | reflexivity | intros _; reflexivity | discriminate
                        | repeat split | cbn [forallb ev_script andb]; exact Ht1 | discriminate
-                       | cbn [sd_to set_to]; rewrite Et, sent_bytes_cons_sent, Ht2; reflexivity | apply store_same].
+                       | intros _; cbn [sd_to set_to]; rewrite Et, sent_bytes_cons_sent, Ht2; reflexivity | apply store_same].
         + constructor; [apply Hwa; [apply same_id_refl|apply wf_ctx_proc, Hwfe] | reflexivity | reflexivity | discriminate
                        | intros _; right; exists (set_processing true e), rest, fmt; cbn; repeat split; auto
                        | repeat split | cbn [forallb ev_script andb]; exact Ht1 | discriminate
-                       | cbn [sd_to set_to]; rewrite Et, sent_bytes_cons_sent, Ht2, app_nil_r; reflexivity | apply store_same].
+                       | intros _; cbn [sd_to set_to]; rewrite Et, sent_bytes_cons_sent, Ht2, app_nil_r; reflexivity | apply store_same].
     Qed.
 
     Lemma expect_props re : sd_to sd = [] -> post1 (process_expect rmatch now sd a store re) None.
@@ -225,13 +240,13 @@ Section Stmt.
       intros Et. unfold process_expect, post1. cbn [sd_from set_xm].
       assert (G : forall x u f, stmt_post sd a store f (set_xm x u sd) a store [] None).
       { intros x u f. constructor; [apply Hwa0 | reflexivity | reflexivity | intros _; exact Et | intros _; left; exact Et
-                        | apply same_id_refl | reflexivity | discriminate | cbn; now rewrite app_nil_r | apply store_same]. }
+                        | apply same_id_refl | reflexivity | discriminate | intros _; cbn; now rewrite app_nil_r | apply store_same]. }
       destruct (sd_from sd) as [|b0 r0] eqn:Ef; [apply G|].
       destruct (rmatch re (nul_to_ff (b0 :: r0))) as [pm|]; [|apply G].
       destruct (nth_error pm 0) as [[[so eo]|]|]; try apply G.
       pose proof (tele_script a (msg_recv (set_xm None false sd) (memstr (firstn eo (nul_to_ff (b0 :: r0)))))) as [Ht1 Ht2]. unfold sent_bytes in Ht2.
       constructor; [apply Hwa0 | reflexivity | reflexivity | intros _; exact Et | discriminate
-                   | apply same_id_refl | exact Ht1 | discriminate | cbn [sd_to set_xm set_from]; rewrite Et; unfold sent_bytes; cbn [flat_map app]; rewrite Ht2; reflexivity | apply store_same].
+                   | apply same_id_refl | exact Ht1 | discriminate | intros _; cbn [sd_to set_xm set_from]; rewrite Et; unfold sent_bytes; cbn [flat_map app]; rewrite Ht2; reflexivity | apply store_same].
     Qed.
 
     Lemma delay_props us : sd_to sd = [] ->
@@ -242,18 +257,18 @@ Section Stmt.
       destruct (c_processing e) eqn:Ep.
       - destruct (sc || (a_delay_start a + us <=? now)) eqn:C.
         + constructor; [apply Hwa; [apply same_id_refl|apply wf_ctx_proc, Hwfe] | reflexivity | reflexivity | intros _; exact Et | discriminate
-                       | repeat split | reflexivity | discriminate | cbn; now rewrite app_nil_r | apply store_same].
+                       | repeat split | reflexivity | discriminate | intros _; cbn; now rewrite app_nil_r | apply store_same].
         + apply orb_false_iff in C as [_ C]. apply Z.leb_gt in C.
           constructor; [apply Hwa; [apply same_id_refl|exact Hwfe] | reflexivity | reflexivity | discriminate | intros _; left; exact Et
-                       | repeat split | reflexivity | intros v E; inversion E; subst; lia | cbn; now rewrite app_nil_r | apply store_same].
+                       | repeat split | reflexivity | intros v E; inversion E; subst; lia | intros _; cbn; now rewrite app_nil_r | apply store_same].
       - cbn [a_delay_start set_delay_start].
         assert (Hid : same_id a (set_delay_start now a)) by (repeat split).
         destruct (sc || (now + us <=? now)) eqn:C.
         + constructor; [apply Hwa; [exact Hid|apply wf_ctx_proc, Hwfe] | reflexivity | reflexivity | intros _; exact Et | discriminate
-                       | repeat split | exact Ht1 | discriminate | rewrite Ht2, app_nil_r; reflexivity | apply store_same].
+                       | repeat split | exact Ht1 | discriminate | intros _; rewrite Ht2, app_nil_r; reflexivity | apply store_same].
         + apply orb_false_iff in C as [_ C]. apply Z.leb_gt in C.
           constructor; [apply Hwa; [exact Hid|apply wf_ctx_proc, Hwfe] | reflexivity | reflexivity | discriminate | intros _; left; exact Et
-                       | repeat split | exact Ht1 | intros v E; inversion E; subst; lia | rewrite Ht2, app_nil_r; reflexivity | apply store_same].
+                       | repeat split | exact Ht1 | intros v E; inversion E; subst; lia | intros _; rewrite Ht2, app_nil_r; reflexivity | apply store_same].
     Qed.
 
     Lemma same_state_post st' evs :
@@ -263,7 +278,7 @@ Section Stmt.
     Proof.
       intros Et He1 He2 Hst.
       constructor; [apply Hwa0 | reflexivity | reflexivity | intros _; exact Et | discriminate
-                   | apply same_id_refl | exact He1 | discriminate | now rewrite He2, app_nil_r | exact Hst].
+                   | apply same_id_refl | exact He1 | discriminate | intros _; now rewrite He2, app_nil_r | exact Hst].
     Qed.
 
     Lemma sub_strdup_ok d i : exists o, sub_strdup d i = Ok o.
@@ -349,9 +364,9 @@ Section Stmt.
         - apply next_plug_in in En.
           constructor; [apply Hwpush; [apply same_id_refl| apply new_ctx_wf; [exact Hbody|intros x [<-|[]]; now apply Hl] | apply wf_ctx_itr, He0]
                        | reflexivity | reflexivity | intros _; exact Et | discriminate
-                       | repeat split | reflexivity | discriminate | cbn; now rewrite app_nil_r | apply store_same].
+                       | repeat split | reflexivity | discriminate | intros _; cbn; now rewrite app_nil_r | apply store_same].
         - constructor; [apply Hwa; [apply same_id_refl|apply wf_ctx_itr, He0] | reflexivity | reflexivity | intros _; exact Et | discriminate
-                       | repeat split | reflexivity | discriminate | cbn; now rewrite app_nil_r | apply store_same]. }
+                       | repeat split | reflexivity | discriminate | intros _; cbn; now rewrite app_nil_r | apply store_same]. }
       destruct (c_plugitr e) as [it|] eqn:Eit.
       - apply G. exact Hwfe.
       - destruct (is_ranged_com (a_com a)) eqn:Er.
@@ -369,7 +384,7 @@ Section Stmt.
       destruct Hwfe as (Hcur & Hblk & Hpl & Hpll & Hrng).
       destruct (c_processing e) eqn:Ep.
       - constructor; [apply Hwa; [apply same_id_refl|apply wf_ctx_proc, Hwfe] | reflexivity | reflexivity | intros _; exact Et | discriminate
-                     | repeat split | reflexivity | discriminate | cbn; now rewrite app_nil_r | apply store_same].
+                     | repeat split | reflexivity | discriminate | intros _; cbn; now rewrite app_nil_r | apply store_same].
       - assert (G : forall st : Z,
                  match (let cond := (want && Z.eqb st ST_ON) || (negb want && Z.eqb st ST_OFF) in
                         let a1 := if negb cond && Z.eqb st ST_UNKNOWN then set_err ACT_EEXPFAIL a else a in
@@ -386,12 +401,12 @@ Section Stmt.
           destruct (_ || _).
           - constructor; [apply Hwpush; [exact Hid| | apply wf_ctx_proc, Hwfe]
                          | reflexivity | reflexivity | intros _; exact Et | discriminate
-                         | destruct Hid as (?&?&?&?&?&?&?); repeat split; assumption | reflexivity | discriminate | cbn; now rewrite app_nil_r | apply store_same].
+                         | destruct Hid as (?&?&?&?&?&?&?); repeat split; assumption | reflexivity | discriminate | intros _; cbn; now rewrite app_nil_r | apply store_same].
             destruct (c_plugs e) as [ps|] eqn:Ecp.
             + apply new_ctx_wf; [exact Hbody|exact Hpl].
             + apply new_ctx_wf; [exact Hbody|intros x []].
           - constructor; [exact Hw1 | reflexivity | reflexivity | intros _; exact Et | discriminate
-                         | exact Hid | reflexivity | discriminate | cbn; now rewrite app_nil_r | apply store_same]. }
+                         | exact Hid | reflexivity | discriminate | intros _; cbn; now rewrite app_nil_r | apply store_same]. }
         destruct (c_plugs e) as [[|p ps]|]; try apply G.
         destruct (pl_node p); apply G.
     Qed.
